@@ -1,5 +1,5 @@
 From Coq Require Import Permutation.
-From Verif Require Import Lib.Base Abci.Mux Abci.MuxProofs Gen.MuxSorts Abci.MapOrder Abci.MapOrderProofs.
+From Verif Require Import Lib.Base Gen.MuxOrder Abci.Mux Abci.MuxProofs Gen.MuxSorts Abci.MapOrder Abci.MapOrderProofs.
 
 (* C01 -- replicas compute identical state and results for identical blocks.
    All statements are about the generic multiplexer model Verif.Abci.Mux, for every
@@ -184,3 +184,12 @@ Theorem replicas_agree_with_failed_rounds :
     observe S (run S n1 ops1) = observe S (run S n2 ops2) \/ collision.
 Proof. exact MuxProofs.replicas_agree_with_failed_rounds. Qed.
 Print Assumptions replicas_agree_with_failed_rounds.
+
+(* Step order of abciMux.BeginBlock/EndBlock as read from the source (harness/cmd/gen
+   muxorder): upgrade handlers before the system-transaction (block metadata) validation.
+   exec_block is defined with this order and cached_equals_reexecution is proved under it. *)
+Theorem mux_step_order :
+  endblock_upgrade_before_validate = true /\ endblock_apps_before_validate = true /\
+  beginblock_upgrade_before_apps = true.
+Proof. exact MuxProofs.mux_step_order. Qed.
+Print Assumptions mux_step_order.
